@@ -162,6 +162,14 @@ def order_invariance(ctx, B, cfg, cap):
             step = p.n // cap + 1
             p = c03.Plan(p.name, p.kind, p.sig, [c[::step] for c in p.cols], p.op)
         base = c03.run_plan(X, p, 0)
+        # the same batch with an error slot that already HOLDS an error obtained from an earlier call: that object must come back untouched (same address, code, message)
+        held = c03.run_plan(X, p, 2)
+        ncalls += p.n
+        for j in np.nonzero((held["flags"] & (xrl.F_SLOTPTR | xrl.F_SLOTMOD)) != 0)[0][:3]:
+            a = c03.argtuple(p, int(j))
+            ctx.violation("%s|held-error-modified|%s" % (cfg, p.name), "%s%r called with a slot that holds the error of an earlier call: that error object was %s" % (
+                p.name, tuple(a), "replaced by another object" if held["flags"][j] & xrl.F_SLOTPTR else "modified in place"),
+                dict(cfg=cfg, ops=[dict(kind=p.kind, name=p.name if p.kind == "fn" else p.op, sig=p.sig, args=a, mode=2)]))
         orders = [("reversed", np.arange(p.n)[::-1])]
         codes = [_codes(c) for c in p.cols]
         for k in range(len(codes)):
@@ -393,6 +401,13 @@ def replay(path):
     k1 = P.key()
     print("  state key before %r after %r" % (k0, k1))
     bad += k0 != k1
+    for op in ops:
+        if op.get("mode") == 2:
+            cols = [[a] for a in op["args"]]
+            r = P.X.call(op["name"], *cols, mode=2) if op["kind"] == "fn" else P.X.op(op["name"], op["sig"], *cols, mode=2)[0]
+            hit = bool(r["flags"][0] & (xrl.F_SLOTPTR | xrl.F_SLOTMOD))
+            print("  %s with a slot holding an earlier error: that object %s" % (describe(op), "was replaced / modified" if hit else "is untouched"))
+            bad += hit
     P.close()
     print(d["what"])
     return 1 if bad else 0
